@@ -3,8 +3,10 @@
 package sim
 
 import (
+	"bytes"
 	"encoding/binary"
 	"net/http"
+	"regexp"
 	"strconv"
 	"strings"
 
@@ -20,6 +22,28 @@ func syntheticRecord() []byte {
 	return data
 }
 
+// filterRecord: a well-formed hit record whose response carries a content-type filter (as a
+// server with compressContentTypeFilter writes it), with the filter text damaged so that it
+// is no regular expression any more: first byte replaced by an invalid UTF-8 byte, an
+// unbalanced bracket, or a dangling repetition operator
+func filterRecord(n int) []byte {
+	resp, _ := cache.NewHTTPResponse(200, http.Header{"Content-Type": []string{"text/plain"}, "X-Synthetic": []string{"1"}}, "", []byte("synthetic record body that no upstream ever sent\n"))
+	resp.CompressContentTypeFilter = regexp.MustCompile("text|json|javascript")
+	hc := cache.VerifNewEntry(cache.StatusHit, resp, 946684800, 4102444800)
+	data, _ := hc.Bytes()
+	i := bytes.Index(data, []byte("text|json|javascript"))
+	if i < 0 {
+		return data
+	}
+	data[i] = []byte{0xf4, '(', '[', '*', 0xff, '\\'}[((n%6)+6)%6]
+	if data[i] == '\\' {
+		// a trailing backslash: put it at the end of the text
+		data[i] = 't'
+		data[i+len("text|json|javascript")-1] = '\\'
+	}
+	return data
+}
+
 // corruptRecord builds the bytes a faulty store returns
 func corruptRecord(fault string, data []byte, ok bool) []byte {
 	base := data
@@ -29,6 +53,8 @@ func corruptRecord(fault string, data []byte, ok bool) []byte {
 	i := strings.IndexByte(fault, ':')
 	n, _ := strconv.Atoi(fault[i+1:])
 	switch fault[:i] {
+	case "badfilter":
+		return filterRecord(n)
 	case "trunc":
 		// a strict prefix; the status field of the prefix says "hit"
 		b := append([]byte{}, base...)
